@@ -124,6 +124,13 @@ CHECKS = {
             "order-exposing use of a set in the package is an audited harmless one.  The hash function and interpreter are runtime: 8 (quick) / 32 (thorough) "
             "processes generate module text, JSON and class names for every document and must agree byte for byte.  Fix 95e6237.",
             "partial by nature: all orders covered in the model; completeness of the scan and the runtime are trusted/sampled"),
+    "C02": ("Coq theorems for each mechanism of the generator (declaration order/cycles, class statement = ObjectMeta.__new__, constructor-expression round trip, typing-import triggers, class-name shape) over tables regenerated from /repo; the composition is decided per run by executing the generated module in a fresh namespace and comparing its classes with the directly parsed ones",
+            "PARTIAL proof.  C02_declared_before_use, C02_class_statement, C02_expressions_rebuild, C02_typing_imports_cover, C02_class_names, C02_positions_reached are "
+            "proved for all inputs of their mechanism.  The end-to-end claim passes through json_ref_dict.materialize, Python's repr of literals and Python's lexer/exec "
+            "(not modelled): every generated document (local and cross-file $ref, shared definitions, auto-titled nested objects, repeated titles, false sub-schemas) "
+            "is generated by main(), executed with only builtins in scope, and its classes compared (count, names, == both ways, verdicts on aimed values) with "
+            "parse(materialize(doc)).  Findings K1-K4 (names, docstrings).",
+            "partial (mechanism theorems + execution oracle)"),
 }
 
 REASONS_PENDING = "check under construction in this session: not yet claimed"
